@@ -38,13 +38,13 @@ type Instance struct {
 
 // Config bounds an exploration.
 type Config struct {
-	Bound     int           // preemption bound; <0 = unbounded
-	Cache     bool          // happens-before state cache
-	Deadline  time.Time     // zero = none; when exceeded the search stops and Capped is set
-	MaxExecs  int64         // 0 = none
-	StopFirst bool          // stop at the first violation
-	Iterate   bool          // iterative preemption bounding: 0,1,..,Bound (unbounded: 0,1,2,then no bound); stops at the first bound with a violation
-	MaxViol   int           // keep at most this many violations (default 3)
+	Bound     int       // preemption bound; <0 = unbounded
+	Cache     bool      // happens-before state cache
+	Deadline  time.Time // zero = none; when exceeded the search stops and Capped is set
+	MaxExecs  int64     // 0 = none
+	StopFirst bool      // stop at the first violation
+	Iterate   bool      // iterative preemption bounding: 0,1,..,Bound (unbounded: 0,1,2,then no bound); stops at the first bound with a violation
+	MaxViol   int       // keep at most this many violations (default 3)
 }
 
 // Violation found by the explorer.
